@@ -1,7 +1,7 @@
 /-
 Boolean checkers, with soundness, for the acknowledgement-side hypotheses of `C06R.ack997_revalidates` (Props/C06Reval.lean):
 for a concrete error-tree state the hypotheses `Complete`, `TrailerSafe`, `IsaPlain`, `EchoSafe`, `EchoFits`, `WithinRepeatsOf`,
-`SizesFit` are decided by evaluation (used by Props/C06RevalExample2.lean to show that they are jointly satisfiable).
+`SizesFit` (and `RefNumsFit` of `ack997_ak402_not_echo`) are decided by evaluation (used by Props/C06RevalExample2.lean to show that they are jointly satisfiable).
 -/
 import Pyx12Verif.Props.C06Reval
 
@@ -240,6 +240,23 @@ theorem withinRepeats_of_b (root : List Node) (s : ErrTree.State) (h : withinRep
   simp only [withinRepeatsB, hS, List.all_eq_true, Bool.and_eq_true] at h
   exact ⟨fun g hg => within_of_b (h g hg).1, fun g hg st hst => within_of_b ((h g hg).2 st hst).1,
     fun g hg st hst sg hsg => within_of_b (((h g hg).2 st hst).2 sg hsg)⟩
+
+/-! ### `RefNumsFit` -/
+
+def refShortB (e : ErrTree.Ele) : Bool :=
+  match e.refNum with
+  | some r => decide (r.length ≤ 4)
+  | none => true
+
+def refNumsFitB (s : ErrTree.State) : Bool :=
+  (allGs s.tree).all (fun g => g.children.all (fun st => st.children.all (fun sg => sg.elements.all refShortB)))
+
+theorem refNumsFit_of_b (s : ErrTree.State) (h : refNumsFitB s = true) : RefNumsFit s := by
+  intro g hg st hst sg hsg e he r hr
+  simp only [refNumsFitB, List.all_eq_true] at h
+  have := h g hg st hst sg hsg e he
+  simp only [refShortB, hr, decide_eq_true_eq] at this
+  exact this
 
 def sizesFitB (s : ErrTree.State) : Bool :=
   decide ((allGs s.tree).length < 10 ^ 6) && (allGs s.tree).all (fun g => decide ((gsLines fixed g).segs.length + 4 < 10 ^ 10))
